@@ -10,8 +10,19 @@ from props.c07 import monitor
 
 B = wire.build_frame
 OUTCOMES = ["connect_fail", "rejected", "drop_before_ready", "drop_after_ready", "graceful_close",
-            "protocol_error", "unresponsive", "ready_then_messages"]
-REACHES_READY = {"drop_after_ready", "graceful_close", "protocol_error", "unresponsive", "ready_then_messages"}
+            "protocol_error", "unresponsive", "ready_then_messages",
+            # attempts in which the server SAYS something about coming back (the delay is persist()'s own business:
+            # [min_wait, max_wait] whatever the server says)
+            "rejected_retry_after_120", "rejected_retry_after_1", "rejected_redirect", "closed_try_again_later"]
+REACHES_READY = {"drop_after_ready", "graceful_close", "protocol_error", "unresponsive", "ready_then_messages",
+                 "closed_try_again_later"}
+REJECTIONS = {
+    "rejected": (403, "No", []),
+    "rejected_retry_after_120": (503, "Busy", [["Retry-After", "120"], ["Content-Length", "0"]]),
+    "rejected_retry_after_1": (429, "Too Many Requests", [["retry-after", "1"], ["X-RateLimit-Reset", "1"]]),
+    "rejected_redirect": (301, "Moved", [["Location", "ws://elsewhere.test/"], ["Retry-After", "Fri, 31 Dec 1999 23:59:59 GMT"],
+                                         ["Refresh", "30"], ["Keep-Alive", "timeout=300, max=7"]]),
+}
 
 
 class FakeExit(object):
@@ -53,8 +64,18 @@ def fake_events(outcome):
     url = "ws://x/"
     if outcome == "connect_fail":
         return [events.Connecting(url), events.ConnectFail("nope")]
-    if outcome == "rejected":
-        return [events.Connecting(url), events.Connected(url), events.Rejected(None, "403"), events.Disconnected("x", True)]
+    if outcome in REJECTIONS:
+        status, reason, headers = REJECTIONS[outcome]
+        response = None
+        if headers:
+            from lomond.response import Response
+            response = Response(("HTTP/1.1 %d %s\r\n" % (status, reason) +
+                                 "".join("%s: %s\r\n" % (n, v) for n, v in headers)).encode("ascii"))
+        return [events.Connecting(url), events.Connected(url), events.Rejected(response, str(status)),
+                events.Disconnected("x", True)]
+    if outcome == "closed_try_again_later":
+        return [events.Connecting(url), events.Connected(url), events.Ready(None, None, set()), events.Poll(),
+                events.Closing(1013, "try again in 120 s"), events.Disconnected(graceful=True)]
     if outcome == "drop_before_ready":
         return [events.Connecting(url), events.Connected(url), events.Disconnected("lost")]
     head = [events.Connecting(url), events.Connected(url), events.Ready(None, None, set()), events.Poll()]
@@ -73,9 +94,14 @@ def attempt_script(outcome):
     """One simnet attempt per outcome (real WebSocket driver)."""
     if outcome == "connect_fail":
         return {"addrs": [{"connect": "refused"}], "script": []}
-    if outcome == "rejected":
-        return {"script": [["wait_request"], ["stream", [["reply", {"status": 403, "reason": "No", "headers": []}]], "whole", 0.0],
-                           ["eof", 0.0]]}
+    if outcome in REJECTIONS:
+        status, reason, headers = REJECTIONS[outcome]
+        return {"script": [["wait_request"], ["stream", [["reply", {"status": status, "reason": reason, "headers": headers}]],
+                                              "whole", 0.0], ["eof", 0.0]]}
+    if outcome == "closed_try_again_later":
+        return {"script": [["wait_request"], ["stream", [["reply", None], ["bytes", B(wire.CLOSE, struct.pack("!H", 1013) +
+                                                                                      b"try again in 120 s")]],
+                                              "whole", 0.0], ["eof", 0.5]]}
     if outcome == "drop_before_ready":
         return {"script": [["wait_request"], ["stream", [["bytes", b"HTTP/1.1 101 Swi"]], "whole", 0.0], ["reset", 0.0]]}
     if outcome == "drop_after_ready":
@@ -155,6 +181,16 @@ class C16(Prop):
                 for (lo, hi) in ((5, 30), (0, 0), (0, 3), (2.5, 2.5), (1, 1000)):
                     yield {"min_wait": lo, "max_wait": hi, "outcomes": list(seq), "us": [1 - 2 ** -53] * 5, "exit_at": None,
                            "poll": 5, "ping_rate": 30, "ping_timeout": None, "driver": "fake", "default_event": False}
+        def server_hints():
+            import itertools
+            for seq in itertools.product(["rejected_retry_after_120", "rejected_retry_after_1", "rejected_redirect",
+                                          "closed_try_again_later", "connect_fail"], repeat=4):
+                for (lo, hi) in ((5, 30), (0, 3), (1, 5)):
+                    for driver in ("fake", "real"):
+                        yield {"min_wait": lo, "max_wait": hi, "outcomes": list(seq), "us": [0.75, 0.999, 0.0, 0.5],
+                               "actions": None, "exit_at": None, "poll": 1.0, "ping_rate": 0, "ping_timeout": None,
+                               "driver": driver, "default_event": False}
+
         def with_actions():
             # the consumer closes / sends at every kind of event of an attempt, for every outcome that follows
             for act in APP_ACTIONS:
@@ -176,6 +212,7 @@ class C16(Prop):
                                "poll": 5, "ping_rate": 30, "ping_timeout": None, "driver": "fake", "default_event": False}
         return [Enumeration("all_outcome_sequences_len5_x3", seqs, exhaustive=True),
                 Enumeration("long_outages", outages, exhaustive=True),
+                Enumeration("attempts_in_which_the_server_says_when_to_come_back", server_hints, exhaustive=True),
                 Enumeration("application_calls_during_attempts", with_actions, exhaustive=True)]
 
     def run_case(self, case):
